@@ -921,6 +921,11 @@ class SgzReader(object):
         if not self.structured and self.include_padding is False:
             # Header arrays were last loaded without padding (e.g. by gen_trace_header), start afresh
             self.clear_variant_headers()
+        value = self.segy_traceheader_template[segyio.tracefield.TraceField(tracefield)]
+        if not isinstance(value, FileOffset):
+            # Header word is constant through the file, so no array was stored for it
+            n_values = self.tracecount if self.is_2d else self.n_ilines * self.n_xlines
+            return np.full(n_values, value, dtype=np.int32)
         self.read_variant_headers(include_padding=True, tracefields=[segyio.tracefield.TraceField(tracefield)])
         return self.variant_headers[tracefield]
 
